@@ -1513,6 +1513,20 @@ func (c *Ctx) checkLastWriter(rule string, m *core.Module, l *mapLoop, base, pos
 			if dependsOn(w.v, phi, l, 0) {
 				continue // computed from the previous value: an accumulation
 			}
+			// `firstErr = f(entry); if firstErr != nil { break }`: the loop goes on only with nil in the variable, so what it
+			// holds afterwards is the error of the entry the loop was left at - the early `return err` written with a
+			// result variable (which entry that is, of several failing ones, is the error idiom's business, not this rule's)
+			if core.IsErrorType(w.v.Type()) {
+				onlyNil := false
+				for _, cond := range append(core.CondsAt(w.from), core.EdgeConds(w.from, l.header)...) {
+					if x, neq, isNil := core.NilCmp(cond.V); isNil && neq != cond.True && x == w.v {
+						onlyNil = true
+					}
+				}
+				if onlyNil {
+					continue
+				}
+			}
 			idx++
 			k := key2(base, sprintf("loop-carried variable #%d overwritten with a value of the current entry", idx))
 			p := m.InstrPos(def)
